@@ -6,7 +6,7 @@ from . import irv_common as I
 
 class C03(Prop):
     layouts = True
-    translators = ['flow', 'irvsmall', 'mwcs']   # ford_fulkerson / dfs_path (Irving's closed-subset step) regenerated from flow.py on every run
+    translators = ['flow', 'irvsmall', 'mwcs', 'irvscf', 'irvposet', 'irvinit', 'irvrot', 'irvall', 'irvpipe']   # ford_fulkerson / dfs_path (Irving's closed-subset step) regenerated from flow.py on every run
     pid = "C03"
     sources = ["socialchoicekit/deterministic_matching.py", "socialchoicekit/flow.py"]
     groups = {"irv": Group("irv", "From SCK Require Import Irving RunIrv.", "RunIrv.irv_case", "RunIrv.chk_irv", shard=12),
@@ -87,6 +87,7 @@ class C03(Prop):
         edge, eliminating rotation, weight - turns into a wrong matching only for some weights), then the usual smaller instances"""
         import random
         P1, P2 = self.ordinal(case); n = len(P1); r = random.Random(n * 1000003 + sum(map(sum, P1)))
+        for c in self.probes(case, P1, P2): yield c
         for t in range(120):
             kind = t % 4
             if kind == 0: V1, V2 = I.gen_valuations(r, P1, P2, "rand")
@@ -99,6 +100,70 @@ class C03(Prop):
                 V1 = [[r.choice([0, 0, 1, 2]) for _ in range(n)] for _ in range(n)]; V2 = [[r.choice([0, 0, 1, 3]) for _ in range(n)] for _ in range(n)]
             yield dict(case, P1=P1, P2=P2, V1=V1, V2=V2, with_profiles=True, family=case["family"] + "_revalued", cpv=False, vdtype="int64")
         for c in self.shrink(case): yield c
+
+    def probes(self, case, P1, P2):
+        """precedence probes: for every ordered pair (pi, rho) of the instance's rotations, valuations that make rho attractive (+10 on the pair its first man moves TO)
+        and pi repulsive (+25 on the pair pi's first man moves AWAY from). If pi must precede rho the optimum leaves both out; an implementation that lost the
+        precedence pi -> rho (a missing poset edge, a wrong eliminating rotation) eliminates rho alone: an exception or an unstable / sub-optimal matching"""
+        n = len(P1); z = [[0] * n for _ in range(n)]
+        try:
+            obs = self.run(dict(case, P1=P1, P2=P2, V1=z, V2=[r[:] for r in z], with_profiles=True, cpv=False, vdtype="int64", dtype="int64"))
+        except Exception:  # noqa
+            return
+        rots = obs.get("rots") or []; cnt = 0
+        for b, rho in enumerate(rots):
+            for a, pi in enumerate(rots):
+                if a == b or len(rho) < 2 or len(pi) < 2 or cnt >= 400: continue
+                cnt += 1
+                V1 = [[0] * n for _ in range(n)]
+                V1[rho[0][0]][rho[1][1]] += 10
+                V1[pi[0][0]][pi[0][1]] += 25
+                yield dict(case, P1=P1, P2=P2, V1=V1, V2=[[0] * n for _ in range(n)], with_profiles=True, family=case["family"] + "_probe", cpv=False, vdtype="int64", dtype="int64")
+
+    def targeted_probes(self, case):
+        """search only: compare the precedence relation the implementation's poset encodes (transitive closure of P') with the TRUE one, read off all stable
+        matchings (pi precedes rho iff every stable matching in which rho has been eliminated has pi eliminated too), and yield a probe for every pair on which
+        they differ - the valuations of `probes` turn a lost or a spurious precedence into a wrong final matching, which the oracle then judges"""
+        P1, P2 = self.ordinal(case); n = len(P1)
+        if n > 8: return
+        z = [[0] * n for _ in range(n)]
+        base = dict(case, P1=P1, P2=P2, V1=z, V2=[r[:] for r in z], with_profiles=True, cpv=False, vdtype="int64", dtype="int64")
+        base.pop("prelude", None)
+        try:
+            obs = self.run(base)
+        except Exception:  # noqa
+            return
+        rots = obs.get("rots") or []; Pp = obs.get("Pp") or []; k = len(rots)
+        if obs.get("status") != "ok" or k < 2 or len(Pp) != k: return
+        sets = []
+        for wife in I.all_stable(P1, P2):
+            sets.append(frozenset(r for r in range(k) if P1[rots[r][0][0]][wife[rots[r][0][0]]] > P1[rots[r][0][0]][rots[r][0][1]]))
+        true = [[a != b and all((a in S) for S in sets if b in S) for b in range(k)] for a in range(k)]       # true[a][b]: a precedes b
+        clo = [[b in Pp[a] for b in range(k)] for a in range(k)]
+        for c in range(k):
+            for a in range(k):
+                if clo[a][c]:
+                    for b in range(k):
+                        if clo[c][b]: clo[a][b] = True
+        for a in range(k):
+            for b in range(k):
+                if a != b and true[a][b] != clo[a][b] and len(rots[a]) >= 2 and len(rots[b]) >= 2:
+                    V1 = [[0] * n for _ in range(n)]
+                    V1[rots[b][0][0]][rots[b][1][1]] += 10
+                    V1[rots[a][0][0]][rots[a][0][1]] += 25
+                    yield dict(base, V1=V1, family=str(case.get("family", "")) + "_precedence_probe")
+
+    def search_cases(self, rng):
+        """after a broken obligation: many ordinal instances with several rotations; an instance is only evaluated through its targeted probes"""
+        for i in range(200000):
+            kind = ["rand", "noisy", "rand", "latin", "noisy"][i % 5]
+            P1, P2 = I.gen_profiles(rng, kind, [6, 7, 8, 8][i % 4])
+            if len(P1) < 4: continue
+            case = dict(entry="Irving.scf", family="search_" + kind, P1=P1, P2=P2, V1=None, V2=None, with_profiles=True, zi=True)
+            for c in self.targeted_probes(case): yield c
+            if i % 25 == 24:
+                V1, V2 = I.gen_valuations(rng, P1, P2, rng.choice(["rand", "ties", "borda"]))
+                yield dict(case, V1=V1, V2=V2)
 
     def ordinal(self, case):
         """the ordinal profiles the rule works with (given, or induced by distinct valuations)"""
